@@ -1052,13 +1052,19 @@ fn check_ws_write(c: &WsWriteCase) -> CaseReport {
     let mut wrapped = gneiss_mqtt::verif::verif_wrap_websocket(ws);
     let mut expected: Vec<u8> = Vec::new();
     let mut blocked = 0u32;
+    // the harness's own retry bounds were exhausted: the case says nothing about the adapter
+    let mut gave_up = false;
     let res = crate::panichook::guarded(|| {
         for (i, len) in c.chunks.iter().enumerate() {
             let data = msg_bytes(i, *len as usize, false);
             let mut off = 0;
             let mut tries = 0;
             // exactly what the threaded driver does: WouldBlock / Interrupted => try the same bytes again later
-            while off < data.len() && tries < 10_000 {
+            while off < data.len() {
+                if tries >= 2_000_000 {
+                    gave_up = true;
+                    break;
+                }
                 tries += 1;
                 match wrapped.write(&data[off..]) {
                     Ok(n) => off += n,
@@ -1070,7 +1076,11 @@ fn check_ws_write(c: &WsWriteCase) -> CaseReport {
             }
             expected.extend_from_slice(&data[..off]);
             let mut f = 0;
-            while f < 10_000 {
+            loop {
+                if f >= 2_000_000 {
+                    gave_up = true;
+                    break;
+                }
                 f += 1;
                 match wrapped.flush() {
                     Ok(()) => break,
@@ -1129,7 +1139,9 @@ fn check_ws_write(c: &WsWriteCase) -> CaseReport {
         }
         off = p + len;
     }
-    if bad || off != out.len() {
+    if gave_up {
+        // nothing is asserted
+    } else if bad || off != out.len() {
         violations.push(Violation::new("C13.ws_write_frames", "websocket adapter: the peer receives a truncated frame although every write was reported complete", format!("{} of {} bytes parsed", off, out.len())));
     } else if got != expected {
         let sig = if got.len() > expected.len() { "websocket adapter: bytes are duplicated on the wire when the transport would block" } else { "websocket adapter: bytes reported as written never reach the peer" };
@@ -1140,7 +1152,7 @@ fn check_ws_write(c: &WsWriteCase) -> CaseReport {
         labels.push("ws_write_would_block".into());
     }
     let nontrivial = blocked > 0 || c.chunks.len() >= 2;
-    CaseReport { violations, labels, nontrivial, digest: hash_str(&format!("{:?}", c)), sample: Some(json!({"kind": "ws_write", "chunks": c.chunks, "plan": format!("{:?}", c.write_plan), "would_block_results": blocked})), ..Default::default() }
+    CaseReport { violations, labels, nontrivial, digest: hash_str(&format!("{:?}", c)), sample: Some(json!({"kind": "ws_write", "chunks": c.chunks, "plan": format!("{:?}", c.write_plan), "would_block_results": blocked})), inconclusive: gave_up, ..Default::default() }
 }
 
 // ------------------------------------------------------------------------------------------------
